@@ -6,7 +6,7 @@ import random
 
 from .. import core, genhist, pytrack as pt, sx
 
-THEOREMS = ['C04.tracker_simulates_machine', 'C04.machine_accepts_under_side_conditions', 'C04.load_addresses_intended_term',
+THEOREMS = ['C04.serializer_bytes_tied', 'C04.tracker_simulates_machine', 'C04.machine_accepts_under_side_conditions', 'C04.load_addresses_intended_term',
             'C04.phase_switch_claim', 'C04.phase_switch_proof', 'C04.publish_leaves_residue']
 
 KF_CLASSES = ('muNotPositive', 'substWF', 'redundantSubst', 'mvWF', 'constraint', 'capture')
